@@ -188,6 +188,10 @@ def field_mutants(ver, prefix, fields, rng):
         for alt in T.VALUES[ver][m]:
             if alt != v:
                 yield "dup-other", join(fs + [m + ":" + alt])
+                # the same metric again in another letter case (where letter case is tolerated, the two spellings are the
+                # same metric and the duplicate rule must not depend on which comes first)
+                yield "dup-other-case", join(fs + [m.lower() + ":" + alt])
+                yield "dup-other-case-front", join([m.swapcase() + ":" + alt] + fs)
                 yield "dup-other-front", join([m + ":" + alt] + fs)
                 yield "value", join(fs[:i] + [m + ":" + alt] + fs[i + 1:])
         yield "empty-field", join(fs[:i] + [""] + fs[i:])
